@@ -35,30 +35,22 @@ theorem reset_frames : resetFrameOk Gen.C08.parser = true ∧ resetFrameOk Gen.C
 theorem parser_reset_covers : covers Gen.C08.parser Expect.C08.parser = true := by
   decide +kernel
 
-/-- The same statement for Printer is FALSE on the current tree: `wroteSemi` is not assigned by
-    reset() and is read before it is written when a bare command such as a for-loop is printed
-    (finding C08-printer-stale-wrotesemi). -/
-def printer_reset_covers_statement : Prop := covers Gen.C08.printer Expect.C08.printer = true
-
-/-- every Printer field except the recorded defect is covered -/
-theorem printer_reset_covers_partial :
-    coversExcept Gen.C08.printer Expect.C08.printer Expect.C08.printerOpen = true := by
-  decide +kernel
-
-theorem printer_reset_covers_counterexample : ¬ printer_reset_covers_statement := by
-  unfold printer_reset_covers_statement
-  decide +kernel
-
-/-- the recorded defect is real in the regenerated table: `wroteSemi` is a Printer field that
-    reset() does not assign, and it is written outside reset() (so it is state, not configuration) -/
-theorem printer_wroteSemi_uncovered :
-    "wroteSemi" ∈ Gen.C08.printer.fieldNames ∧ Gen.C08.printer.resetRhs "wroteSemi" = none ∧
-    (Gen.C08.printer.otherWrites.any fun w => w.field == "wroteSemi") = true := by
+/-- `reset_covers` for Printer (full statement; `wroteSemi` was the recorded finding
+    C08-printer-stale-wrotesemi until reset() was given `p.wroteSemi = false`). -/
+theorem printer_reset_covers : covers Gen.C08.printer Expect.C08.printer = true := by
   decide +kernel
 
 /-- Every exported method of Parser/Printer starts with `reset()`, or touches the object only
     through other exported methods (no unexported call, no field write). -/
 theorem entry_points_reset_first : entriesOk Gen.C08.parser = true ∧ entriesOk Gen.C08.printer = true := by
+  decide +kernel
+
+/-- State reachable through pointer fields does not outlive a call: every pointer-typed field of
+    Parser/Printer is re-pointed by reset(), initialised by every entry point, or (tabsPrinter)
+    assigned the address of a new composite literal before any use in every function touching it. -/
+theorem pointer_fields_covered :
+    pointerFieldsOk Gen.C08.parser Expect.C08.parser = true ∧
+    pointerFieldsOk Gen.C08.printer Expect.C08.printer = true := by
   decide +kernel
 
 /-- Option functions write configuration fields (or fields every entry point re-initialises). -/
@@ -120,8 +112,8 @@ theorem printer_reset_determines (s1 s2 : String → Option String)
     (hc : Expect.C08.printer.classOf f = some .reset ∨ Expect.C08.printer.classOf f = some .truncated ∨
           Expect.C08.printer.classOf f = some .config) :
     resetSem Gen.C08.printer Expect.C08.printer s1 f = resetSem Gen.C08.printer Expect.C08.printer s2 f := by
-  have h := printer_reset_covers_partial
-  unfold coversExcept at h
+  have h := printer_reset_covers
+  unfold covers at h
   rw [List.all_eq_true] at h
   have := h f hf
   simp only [Bool.and_eq_true] at this
@@ -198,7 +190,7 @@ theorem stmtsSeq_no_yield_after_stop (cont : Nat → Bool) (steps : List Step) (
 
 /-- A consumer that never stops is never called after returning false (no Go runtime panic). -/
 theorem no_panic_without_stop (tr : List Ev) : (run none tr).panic = false :=
-  (runFrom_live {} live_init tr).2.2
+  (runFrom_live {} live_init tr).2.2.1
 
 /-- Nothing is lost, duplicated or reordered: for every trace of a program that parses, what a
     client runs (the statements of the callbacks that are neither incomplete nor erroring), followed
@@ -208,9 +200,9 @@ theorem interactive_ran_pending (tr : List Ev) (hn : NoErr tr) (h0 : A0 tr) :
   have := ran_pending tr {} live_init hn h0
   simpa [run, accIds, ran, ranOf] using this
 
-/-- `interactive_batches`: if moreover the last statement was followed by a newline token
-    (`EndsNewl`: the program's last line is terminated), the concatenated non-incomplete callbacks
-    are exactly the statement list. -/
+/-- `interactive_batches`: if the last statement was followed by a newline token (`EndsNewl`: the
+    program's last line is terminated), the callbacks made before EOF already deliver exactly the
+    statement list. -/
 theorem interactive_batches (tr : List Ev) (hn : NoErr tr) (h0 : A0 tr) (he : EndsNewl tr) :
     ran (run none tr) = allStmts tr := by
   have h := interactive_ran_pending tr hn h0
@@ -219,22 +211,25 @@ theorem interactive_batches (tr : List Ev) (hn : NoErr tr) (h0 : A0 tr) (he : En
   rw [hacc] at h
   simpa using h
 
-/-- The full statement (without `EndsNewl`) is FALSE of the model and of the code: finding
-    C08-interactive-unterminated-last-line. -/
-def interactive_all_statement : Prop :=
-  ∀ tr : List Ev, NoErr tr → A0 tr → ran (run none tr) = allStmts tr
+/-- `interactive_all` (full statement): with the final hand-over at EOF, for every trace of a
+    program that parses — whether or not its last line is terminated — the concatenated
+    non-incomplete callbacks of InteractiveSeq are exactly the statement list.  (Without the final
+    hand-over this was finding C08-interactive-unterminated-last-line.) -/
+theorem interactive_all (tr : List Ev) (hn : NoErr tr) (h0 : A0 tr) :
+    ran (runAll none tr false 0 0) = allStmts tr := by
+  unfold runAll run
+  rw [finish_live _ (runFrom_live {} live_init tr)]
+  have := ran_pending tr {} live_init hn h0
+  simpa [run, incomplete_zero, accIds, ran, ranOf] using this
 
-/-- the real trace of `echo foo` (no final newline): the statement is never handed over -/
+/-- the real trace of `echo foo` (no final newline): nothing is handed over before EOF, the
+    statement is handed over by the final flush -/
 def traceEchoFoo : List Ev :=
   [.read false 1 0 0 false false, .read false 1 1 3 false true, .stmt (some 0) false false 1 0 0]
 
-theorem interactive_all_counterexample : ¬ interactive_all_statement := by
-  intro h
-  have := h traceEchoFoo (by decide) (by decide)
-  revert this
-  decide
+example : ran (run none traceEchoFoo) = [] ∧ ran (runAll none traceEchoFoo false 0 0) = [0] := by decide
 
-/-- … and `EndsNewl` is exactly the missing hypothesis: the statement list is delivered completely
+/-- Before EOF (i.e. without the final hand-over) the statement list has been delivered completely
     if and only if the last statement was followed by a newline token. -/
 theorem interactive_all_iff (tr : List Ev) (hn : NoErr tr) (h0 : A0 tr) :
     ran (run none tr) = allStmts tr ↔ EndsNewl tr := by
@@ -258,6 +253,11 @@ theorem no_double_yield (tr : List Ev) (hn : NoErr tr) (h0 : A0 tr) (hd : (allSt
   have h := interactive_ran_pending tr hn h0
   rw [← h] at hd
   exact (List.nodup_append.1 hd).1
+
+/-- … also with the final hand-over. -/
+theorem no_double_yield_all (tr : List Ev) (hn : NoErr tr) (h0 : A0 tr) (hd : (allStmts tr).Nodup) :
+    (ran (runAll none tr false 0 0)).Nodup := by
+  rw [interactive_all tr hn h0]; exact hd
 
 /-- `Incomplete` is reported only at blocked reads inside an unfinished statement — for every
     consumer, stopping or not: under A0 (no open node at a statement event) and A2 (an open node or
@@ -285,29 +285,29 @@ theorem idle_means_flushed (pre post : List Ev) (line o l : Nat) (err : Bool)
   rw [hacc] at h
   simpa using h
 
-/-- Stopping: the Go runtime panic "range function continued iteration after function for loop
-    body returned false" can only happen when the consumer returned false at a callback made by
-    wrappedReader.Read (a blocked read), never when it stopped at a callback of the loop. -/
+/-- Stopping (`no_yield_after_stop`): for every trace in which the parser does not call Read again
+    once wrappedReader.Read has returned EOF to a stopping consumer (A3: read errors are sticky in
+    `Parser.fill`), the consumer is never called again after it returned false — at whatever
+    callback it stops.  (This was finding C08-interactive-yield-after-stop before `w.stopped`.) -/
+theorem no_yield_after_stop (stopAt : Option Nat) (tr : List Ev) (err : Bool) (o l : Nat)
+    (h3 : noReadAfterStop stopAt {} tr = true) : (runAll stopAt tr err o l).panic = false :=
+  finish_stopInv stopAt _ err o l (runFrom_stopInv stopAt tr {} ⟨rfl, fun h => by simp at h⟩ h3)
+
+/-- Without A3 a Go runtime panic still needs a stop at a callback made by wrappedReader.Read. -/
 theorem no_yield_after_stop_partial (k : Nat) (tr : List Ev) (hp : (run (some k) tr).panic = true) :
     ∃ cb, (run (some k) tr).cbs[k]? = some cb ∧ cb.fromRead = true := by
   have h := runFrom_stopOk k tr {} (stopOk_init k)
   have := h.1 hp
   exact h.2.1 this.1 this.2
 
-/-- The full statement is FALSE of the model and of the code: finding
-    C08-interactive-yield-after-stop. -/
-def no_yield_after_stop_statement : Prop := ∀ (k : Nat) (tr : List Ev), (run (some k) tr).panic = false
-
 /-- the real trace of `echo "foo` NEWLINE `bar"` when the consumer stops at its first callback
-    (Incomplete): Read returns EOF, the parser reports the unclosed quote, and InteractiveSeq calls
-    the consumer again -/
+    (Incomplete): Read returns EOF, the parser reports the unclosed quote, the loop breaks -/
 def traceStopIncomplete : List Ev :=
   [.read false 1 0 0 false false, .read true 2 2 4 false true, .stmt none true false 2 0 0]
 
-theorem no_yield_after_stop_counterexample : ¬ no_yield_after_stop_statement := by
-  intro h
-  have := h 0 traceStopIncomplete
-  revert this
+example : noReadAfterStop (some 0) {} traceStopIncomplete = true ∧
+    (runAll (some 0) traceStopIncomplete true 0 0).panic = false ∧
+    (runAll (some 0) traceStopIncomplete true 0 0).cbs.length = 1 := by
   decide
 
 /-! ### non-vacuity: the hypotheses hold on real traces -/
